@@ -1107,6 +1107,16 @@ impl<'a> FnTr<'a> {
 
     /// Translate statements none of which may end the function; returns the lets.
     fn block_tail_prefix(&mut self, stmts: &[Stmt], env: &mut Env) -> Res<Stmts> {
+        // builder N: the last statement of a prefix is a statement (an `if` / `match` written without `;`
+        // is not the value of the block)
+        let mut owned: Vec<Stmt> = stmts.to_vec();
+        if let Some(Stmt::Expr(e, None)) = owned.last().cloned() {
+            if matches!(e, Expr::If(_) | Expr::Match(_) | Expr::Block(_)) {
+                let k = owned.len() - 1;
+                owned[k] = Stmt::Expr(e, Some(Default::default()));
+            }
+        }
+        let stmts = &owned[..];
         let seq = self.block_tail(stmts, env)?;
         match seq.tail {
             Tail::Val(ref v) if v == "()" => Ok(seq.stmts),
@@ -1147,6 +1157,9 @@ impl<'a> FnTr<'a> {
                     };
                     let ip = self.pat(&ts.elems[0], &inner, env)?;
                     Ok(format!("some {}", paren(&ip)))
+                } else if name == "Err" && matches!(ty, Ty::Opt(_)) && matches!(ts.elems.first(), Some(Pat::Wild(_))) {
+                    // builder N: `Err(_)` of a `Result` translated as an `Option` (the error value is not bound)
+                    Ok("none".into())
                 } else {
                     Err(format!("unsupported tuple-struct pattern {}", name))
                 }
